@@ -43,6 +43,18 @@ def closed_form_seconds(y, mo, d, h, mi, se):
     return days_from_civil(y, mo, d) * 86400 + h * 3600 + mi * 60 + se
 
 
+def poison():
+    """calls that are refused with an exception on the unchanged tree (fields of another kind than int); their only legitimate effect is the exception"""
+    from tracklib.core.obs_time import ObsTime
+    for args in ((2020.0, 3.0, 1, 0, 0, 0), (2024, 2.0, 29, 12, 0, 0), ('2020', 1, 1, 0, 0, 0)):
+        for call in ('toAbsTime', 'addSec', 'addDay'):
+            try:
+                t = ObsTime(*args)
+                getattr(t, call)() if call == 'toAbsTime' else getattr(t, call)(1)
+            except Exception:
+                pass
+
+
 def fields(t):
     return [t.year, t.month, t.day, t.hour, t.min, t.sec, t.ms]
 
@@ -99,6 +111,13 @@ class C03(Check):
         for y in addyears:
             for unit in ('Sec', 'Min', 'Hour', 'Day'):
                 js.append(dict(kind='add', unit=unit, y=y, ymax=ymax))
+        # aliasing / leftover-state probes: results are fresh objects (editing one does not change a later conversion of the same instant);
+        # a conversion refused with an exception (non-integer year / month fields) leaves the next conversions unaffected
+        for y in ([1999, 2020, 2021] if tier == 'quick' else [1970, 1999, 2000, 2020, 2021, 2024, 2100]):
+            js.append(dict(kind='alias', y0=y, y1=y + 1))
+            js.append(dict(kind='read', y0=y, y1=y + 1, poison=True))
+            js.append(dict(kind='abs', y0=y, y1=y, poison=True))
+        js.sort(key=lambda j: 0 if (j['kind'] == 'alias' or j.get('poison')) else 1)
         return js
 
     def patches(self, job):
@@ -109,6 +128,34 @@ class C03(Check):
         from tracklib.core.obs_time import ObsTime
         eng = ctx.eng
         kind = job['kind']
+        if job.get('poison'):
+            poison()
+        if kind == 'alias':
+            s = eng.int('s', year_start(job['y0']), year_start(job['y1']) - 1)
+            n = eng.int('n', -86400 * 3, 86400 * 3)
+            eng.assume(s.z + n.z >= 0)
+            try:
+                t1 = ObsTime.readUnixTime(s)
+                f1 = zfields(t1)
+                r1 = t1.addSec(n)
+                t1.hour, t1.min, t1.sec, t1.day = 0, 0, 0, 1            # the caller truncates the first result ...
+                r1.year, r1.month = 1999, 1
+                t2 = ObsTime.readUnixTime(s)                                # ... and converts the same instant again
+                r2 = t2.addSec(n)
+            except Exception as e:
+                ctx.fail('conversion raised %s' % type(e).__name__)
+                return
+            ctx.reach()
+            ctx.observe(fields=fields(t2)[:6])
+            if t2 is t1 or r2 is r1:
+                ctx.fail('two conversions of the same instant return the same object (editing one result changes the other)')
+                return
+            f2, g2 = zfields(t2), zfields(r2)
+            if not ctx.prove(z3.And(wellformed(*f2), closed_form_seconds(*f2[:6]) == s.z, z3.And([a == b for a, b in zip(f1, f2)])),
+                             'a second conversion of the same instant is unaffected by edits of the first result'):
+                return
+            ctx.prove(z3.And(wellformed(*g2), closed_form_seconds(*g2[:6]) == s.z + n.z), 'addSec on a fresh conversion is unaffected by edits of an earlier result')
+            return
         if kind == 'read':
             s = eng.int('s', year_start(job['y0']), year_start(job['y1']) - 1)
             ms = eng.int('ms', 0, 999)
@@ -199,10 +246,27 @@ class C03(Check):
                 got = datetime.datetime(t.year, t.month, t.day, t.hour, t.min, t.sec, int(t.ms) * 1000)
             except Exception as e:
                 return dict(violation='%s: malformed date %s (%s)' % (what, fl, e), outputs=dict(fields=flo))
-            if not (0 <= t.ms <= 999) or abs((got - want_dt).total_seconds()) > 0.001 + 1e-9:
+            if not (0 <= t.ms <= 999) or abs((got - want_dt).total_seconds()) > 0.001 + 1e-6:
                 return dict(violation='%s: got %s, expected %s' % (what, fl, want_dt.isoformat()), outputs=dict(fields=flo))
             return dict(violation=None, outputs=dict(fields=flo))
 
+        if job.get('poison'):
+            poison()
+        if kind == 'alias':
+            s, n = int(inp['s']), int(inp['n'])
+            t1 = ObsTime.readUnixTime(s)
+            r1 = t1.addSec(n)
+            t1.hour, t1.min, t1.sec, t1.day = 0, 0, 0, 1
+            r1.year, r1.month = 1999, 1
+            t2 = ObsTime.readUnixTime(s)
+            r2 = t2.addSec(n)
+            if t2 is t1 or r2 is r1:
+                return dict(violation='readUnixTime(%d) / addSec(%d) called twice return the same object' % (s, n), outputs={})
+            r = check_fields(t2, EPOCH + datetime.timedelta(seconds=s), 'readUnixTime(%d) after the first result was edited' % s)
+            if r['violation']:
+                return r
+            r2c = check_fields(r2, EPOCH + datetime.timedelta(seconds=s + n), 'readUnixTime(%d).addSec(%d) after the first result was edited' % (s, n))
+            return dict(violation=r2c['violation'], outputs=r['outputs'])
         if kind == 'read':
             s, ms = inp['s'], inp['ms']
             x = s + ms / 1000
@@ -215,7 +279,7 @@ class C03(Check):
             if r['violation']:
                 return r
             back = t.toAbsTime()
-            if abs(back - x) > 0.001 + 1e-9:
+            if abs(back - x) > 0.001 + 1e-6:
                 return dict(violation='toAbsTime(readUnixTime(%r)) = %r' % (x, back), outputs=r['outputs'])
             if ms == 0 and back != x:
                 return dict(violation='whole-second timestamp %r does not round-trip exactly: %r' % (x, back), outputs=r['outputs'])
